@@ -567,13 +567,16 @@ const C15_CONSTRUCTS: &[&str] = &[
   // nestings
   "interval-switch_on_next-interval",
   "flat_map-observe_on",
+  "flat_map-subscribe_on",
   "timer-concat-timer",
   "interval-zip-interval",
   "interval-combine_latest-interval",
   "observe_on-cold-error-retry",
   "interval-window-flat_map",
 ];
-const C15_ENDINGS: &[&str] = &["terminal", "unsubscribe", "take", "first", "take_until-timer", "amb-timer", "retry", "unsubscribe-early", "unsubscribe-probes"];
+// "unsubscribe-in-scheduler-factory": the scheduler factory of an inner stream (flat_map nestings)
+// unsubscribes the whole subscription - the inner stream's observer dies exactly while it is being set up
+const C15_ENDINGS: &[&str] = &["terminal", "unsubscribe", "take", "first", "take_until-timer", "amb-timer", "retry", "unsubscribe-early", "unsubscribe-probes", "unsubscribe-in-scheduler-factory"];
 
 impl Family for C15 {
   fn name(&self) -> &'static str {
@@ -597,6 +600,8 @@ impl Family for C15 {
       ("jitter", Json::Bool(rng.below(4) == 0)),
       // for the ending "unsubscribe-probes": scheduling points the caller lets pass before it unsubscribes
       ("unsub_probes", Json::Int(rng.below(25) as i64)),
+      // for the ending "unsubscribe-in-scheduler-factory": which call of the inner factory does it
+      ("factory_call", Json::Int(rng.below(3) as i64)),
     ])
   }
   fn knobs(&self, rng: &mut Rng, w: &Json, _tier: Tier) -> Json {
@@ -630,6 +635,10 @@ impl Family for C15 {
     let endless = construct.starts_with("interval") || construct == "subscribe_on+interval";
     // an endless source cannot end by its own terminal: the ending then is an unsubscribe
     let ending = if endless && ending == "terminal" { "unsubscribe".to_string() } else { ending };
+    // only nestings create schedulers after subscribe returned; elsewhere this ending is a plain unsubscribe
+    let nested = ["flat_map-observe_on", "flat_map-subscribe_on", "timer+flat_map-interval"].contains(&construct.as_str());
+    let ending = if ending == "unsubscribe-in-scheduler-factory" && !nested { "unsubscribe".to_string() } else { ending };
+    let factory_call = if w.get("factory_call").is_some() { w.i("factory_call").clamp(0, 8) } else { 0 };
     // (end instant, tasks at that instant)
     let ends: Arc<Mutex<Vec<(u64, Vec<rt::TaskInfo>)>>> = Arc::new(Mutex::new(Vec::new()));
     let recs: Arc<Mutex<Vec<Recorder>>> = Arc::new(Mutex::new(Vec::new()));
@@ -649,6 +658,27 @@ impl Family for C15 {
           move || threaded_source("timed-source", script.clone(), slog.clone(), true, gaps.clone(), handles.clone())
         };
         let sched = schedulers::new_thread_scheduler;
+        // factory for the schedulers of inner streams
+        let outer_sub: Arc<Mutex<Option<Subscription<'static>>>> = Arc::new(Mutex::new(None));
+        let factory_hook: Arc<Mutex<Option<Arc<dyn Fn() + Send + Sync>>>> = Arc::new(Mutex::new(None));
+        let inner_sched = {
+          let (calls, fh) = (Arc::new(Mutex::new(0i64)), factory_hook.clone());
+          let in_factory = ending2 == "unsubscribe-in-scheduler-factory";
+          move || {
+            let k = {
+              let mut c = calls.lock().unwrap();
+              *c += 1;
+              *c - 1
+            };
+            if in_factory && k == factory_call {
+              let h = fh.lock().unwrap().clone();
+              if let Some(h) = h {
+                h();
+              }
+            }
+            schedulers::new_thread_scheduler()()
+          }
+        };
         let iv = || observables::interval(ms(d), sched()).map(|x| Val::Int(x as i64));
         let mut o: Observable<'static, Val> = match construct2.as_str() {
           "interval" => iv(),
@@ -660,14 +690,24 @@ impl Family for C15 {
           "interval+observe_on" => iv().observe_on(sched()),
           "observe_on+subscribe_on" => cold_source(vec![script.clone()], slog.clone(), None, true).subscribe_on(sched()).observe_on(sched()),
           "interval+timeout" => iv().timeout(ms(2 * d + 7), sched()),
-          "timer+flat_map-interval" => observables::timer(ms(d), sched()).flat_map(move |_| observables::interval(ms(d), schedulers::new_thread_scheduler()).map(|x| Val::Int(x as i64))),
+          "timer+flat_map-interval" => {
+            let f = inner_sched.clone();
+            observables::timer(ms(d), sched()).flat_map(move |_| observables::interval(ms(d), f.clone()).map(|x| Val::Int(x as i64)))
+          }
           "observe_on+observe_on" => timed_src().observe_on(sched()).observe_on(sched()),
           "interval+ref_count" => iv().ref_count().observable(),
           "sample-by-interval" => timed_src().sample(observables::interval(ms(d), sched())),
           "subscribe_on+interval" => iv().subscribe_on(sched()),
           "interval+delay" => iv().delay(ms(7)),
           "interval-switch_on_next-interval" => iv().switch_on_next(observables::interval(ms(d + 30), sched()).map(|x| Val::Int(1000 + x as i64))),
-          "flat_map-observe_on" => timed_src().flat_map(move |x: Val| observables::just(x).observe_on(schedulers::new_thread_scheduler())),
+          "flat_map-observe_on" => {
+            let f = inner_sched.clone();
+            timed_src().flat_map(move |x: Val| observables::just(x).observe_on(f.clone()))
+          }
+          "flat_map-subscribe_on" => {
+            let f = inner_sched.clone();
+            timed_src().flat_map(move |x: Val| observables::just(x).subscribe_on(f.clone()))
+          }
           "timer-concat-timer" => observables::timer(ms(d), sched()).map(|_| Val::Int(1)).concat(&[observables::timer(ms(d + 30), sched()).map(|_| Val::Int(2))]),
           "interval-zip-interval" => iv().zip(&[observables::interval(ms(d + 30), sched()).map(|x| Val::Int(1000 + x as i64))]).map(Val::List),
           "interval-combine_latest-interval" => iv().combine_latest(&[observables::interval(ms(d + 30), sched()).map(|x| Val::Int(1000 + x as i64))], Val::List),
@@ -698,6 +738,8 @@ impl Family for C15 {
           "unsubscribe" => need_unsub = Some(unsub_ms),
           "unsubscribe-early" => need_unsub = Some(0),
           "unsubscribe-probes" => need_unsub = Some(-1),
+          // the factory does it; if no inner stream is ever created the horizon cut ends it
+          "unsubscribe-in-scheduler-factory" => {}
           "take" => o = o.take(take as usize),
           "first" => o = o.first(),
           "take_until-timer" => o = o.take_until(observables::timer(ms(unsub_ms), sched())),
@@ -745,6 +787,18 @@ impl Family for C15 {
             m2();
           },
         );
+        {
+          // what the inner factory does when its turn comes
+          *outer_sub.lock().unwrap() = Some(sub.clone());
+          let (os, me) = (outer_sub.clone(), mark_end.clone());
+          *factory_hook.lock().unwrap() = Some(Arc::new(move || {
+            let s = os.lock().unwrap().take();
+            if let Some(s) = s {
+              s.unsubscribe();
+              me();
+            }
+          }));
+        }
         if let Some(u) = need_unsub {
           if u > 0 {
             rt::thread::sleep(ms(u));
@@ -783,6 +837,8 @@ impl Family for C15 {
           rt::quiesce();
         }
         let _ = t;
+        *factory_hook.lock().unwrap() = None;
+        *outer_sub.lock().unwrap() = None;
         drop(sub);
       }
       *ft2.lock().unwrap() = rt::quiesce();
